@@ -148,6 +148,8 @@ async fn on_flush(
         .await
         .map_err(|e| e.to_string())?;
 
+    #[cfg(sneldb_verif)]
+    crate::verif::point("flush.queued");
     match completion_rx.await {
         Ok(Ok(())) => Ok(()),
         Ok(Err(e)) => Err(e.to_string()),
